@@ -1,6 +1,7 @@
 """C14 - concurrent compilation and matching behave as if run one at a time (deterministic scheduler)."""
 from __future__ import annotations
 
+import sys
 import time
 import warnings
 
@@ -18,9 +19,10 @@ META = {
             'functional pseudo-class - thread A is stopped at each of its yield points, thread B runs to completion, A '
             'resumes; (ii) Hypothesis-drawn cyclic burst schedules and PCT priority schedules with <= 3 change points '
             'over 2-4 threads and mixed compile/purge/select/match/filter/closest operations on shared and private '
-            'documents. Oracle: every operation\'s outcome (selector structure / selected positions / exception type) '
+            'documents, including operations at the interpreter\'s limits (a 4400-digit An+B coefficient that must be a '
+            'syntax error, range matching on 4400-digit years), for which all single pre-emptions are enumerated too. Oracle: every operation\'s outcome (selector structure / selected positions / exception type) '
             'equals its outcome when run alone on a purged cache; afterwards every pattern\'s cached entry equals a '
-            'fresh parse and the cache is within its bound. Non-trivial: >= 1 context switch happened at a yield point '
+            'fresh parse (or the same error), the cache is within its bound and the interpreter-wide int-digit and recursion limits are what they were. Non-trivial: >= 1 context switch happened at a yield point '
             'inside soupsieve while another thread still had soupsieve work to do; distinct by (operations, schedule)',
     'assumptions': ['only interleavings at traced boundaries inside soupsieve\'s Python frames are explored; C-level '
                     'atomicity of lru_cache and re is trusted', '>= 2 pre-emptions are sampled, not exhausted'],
@@ -35,6 +37,13 @@ POOL_MORE = [':nth-last-child(-n+3 of li)', ':lang("de-*", fr)', ':-soup-contain
              'p:first-child ~ p:lang(en)', ':checked, :default', ':root:empty', '\\31 a', ':dir(ltr):nth-child(3)']
 DETACHED_SELECTORS = ['div:first-child', 'div:nth-child(1)', ':only-child', 'div:last-of-type', ':nth-last-child(-n+1)',
                       ':root:nth-of-type(1)']
+# operations at the interpreter's limits: they are where a library is tempted to touch process-wide settings
+HUGE_NTH = ':nth-child(' + '1' * 4400 + 'n)'          # alone: SelectorSyntaxError (int() digit limit)
+HUGE_YEAR = '1' * 4400
+LIMIT_MARKUP = ('<form><input id="a" type="month" min="' + HUGE_YEAR + '-01" value="' + HUGE_YEAR + '-05">'
+                '<input id="b" type="date" max="' + HUGE_YEAR + '-01-01" value="' + HUGE_YEAR + '9-01-01">'
+                '<input id="c" type="week" min="2000-W01" value="' + HUGE_YEAR + '-W02"></form>')
+LIMIT_SELECTORS = [':in-range', ':out-of-range', 'input:not(:in-range)']
 _doc = [None]
 
 
@@ -61,6 +70,10 @@ def make_op(op, private_docs):
         return f
     if kind == 'purge':
         return lambda: ('purged', sv.purge())
+    if kind == 'select-limits':
+        import bs4 as _bs4
+        soup = _bs4.BeautifulSoup(LIMIT_MARKUP, 'html.parser')
+        return lambda: ('select-limits', [e.get('id') for e in sv.select(p, soup)])
     if kind == 'match-detached':
         import bs4 as _bs4
         frag = _bs4.BeautifulSoup('', 'html.parser').new_tag('div', attrs={'id': f't{op["tid"]}'})
@@ -86,6 +99,10 @@ def make_op(op, private_docs):
     if kind == 'closest':
         return lambda: ('closest', pos(sv.closest(p, target, NS, custom=CUSTOM)))
     raise ValueError(kind)
+
+
+def interpreter_settings():
+    return (sys.get_int_max_str_digits(), sys.getrecursionlimit())
 
 
 def solo(op, private_docs):
@@ -116,6 +133,7 @@ def run_case(case, opcode=False):
         schedule = sched.Bursts(sc['bursts'])
     else:
         schedule = sched.Priorities(sc['prios'], sc['changes'])
+    settings_before = interpreter_settings()
     sv.purge()
     runner = sched.Runner([[make_op(o, private) for o in ops] for ops in case['threads']], schedule,
                           opcode_files=('css_parser.py',) if opcode else ())
@@ -132,21 +150,32 @@ def run_case(case, opcode=False):
             if got[0] != exp[0] or (got[0] == 'ok' and got[1] != exp[1]) or (got[0] == 'raise' and got[1] != exp[1]):
                 what = f'raises {got[1]}: {got[2]}' if got[0] == 'raise' else 'returns a different value'
                 b = ('thread-sees-exception-' + got[1]) if got[0] == 'raise' else 'thread-sees-wrong-' + op['op'] + '-result'
-                fails.append((b, f'thread {tid} op {op["op"]} {op.get("p")!r} {what}; alone it gives {exp[0]} '
-                                 f'{exp[1] if exp[0] == "raise" else ""}; threads {[[(o["op"], o.get("p")) for o in t] for t in case["threads"]]} '
+                fails.append((b, f'thread {tid} op {op["op"]} {(op.get("p") or "")[:60]!r} {what}; alone it gives {exp[0]} '
+                                 f'{exp[1] if exp[0] == "raise" else ""}; threads {[[(o["op"], (o.get("p") or "")[:60]) for o in t] for t in case["threads"]]} '
                                  f'schedule {sc}'))
     # nothing wrong left behind in the cache
     pats = sorted({o['p'] for ops in case['threads'] for o in ops if o.get('p')})
+    def outcome(p):
+        try:
+            return ('ok', compile_(p))
+        except sv.SelectorSyntaxError as e:
+            return ('raise', type(e).__name__)
+
     for p in pats:
         try:
-            cached = compile_(p)
+            cached = outcome(p)
             sv.purge()
-            fresh = compile_(p)
+            fresh = outcome(p)
         except Exception as e:  # noqa: BLE001
-            fails.append(('cache-check-raises-' + type(e).__name__, f'{p!r}: {e!r:.150}'))
+            fails.append(('cache-check-raises-' + type(e).__name__, f'{p[:80]!r}: {e!r:.150}'))
             continue
-        if cached.selectors != fresh.selectors or cached != fresh:
-            fails.append(('poisoned-cache-entry', f'{p!r}: the entry left in the cache differs from a fresh parse; schedule {sc}'))
+        if cached[0] != fresh[0] or (cached[0] == 'ok' and (cached[1].selectors != fresh[1].selectors or cached[1] != fresh[1])):
+            fails.append(('poisoned-cache-entry', f'{p[:80]!r}: the entry left in the cache ({cached[0]}) differs from a fresh parse ({fresh[0]}); schedule {sc}'))
+    settings_after = interpreter_settings()
+    if settings_after != settings_before:
+        fails.append(('interpreter-setting-left-changed', f'{settings_before} -> {settings_after} after threads {[[(o["op"], (o.get("p") or "")[:40]) for o in t] for t in case["threads"]]} schedule {sc}'))
+        sys.set_int_max_str_digits(settings_before[0])
+        sys.setrecursionlimit(settings_before[1])
     try:
         from soupsieve import css_parser as cp
         ci = cp._cached_css_compile.cache_info()
@@ -233,6 +262,28 @@ def run_single_preemptions(col, ctx, pool, opcode):
                         col.nontrivial_case(['single-detached', a, b, point], None)
                     for bkt, d in fails[:2]:
                         col.fail(bkt, case, d)
+    if complete:
+        lim = [{'op': 'select-limits', 'p': q} for q in LIMIT_SELECTORS[:2]] + [{'op': 'compile', 'p': HUGE_NTH, 'purge': True}]
+        for opa in lim:
+            npts, _res = sched.count_yield_points(make_op(dict(opa, tid=0), [None]))
+            for opb in lim:
+                for point in range(1, npts + 2):
+                    idx += 1
+                    if idx % nsh != k:
+                        continue
+                    if time.time() > ctx['t_end']:
+                        col.extra['budget_exhausted'] = 1
+                        complete = False
+                        break
+                    case = {'threads': [[dict(opa)], [dict(opb)]], 'schedule': {'kind': 'single', 'point': point},
+                            'opcode': False}
+                    fails, st = run_case(case, False)
+                    col.count()
+                    if st['switches'] >= 1:
+                        col.classify('single-limits')
+                        col.nontrivial_case(['single-limits', opa['op'], opa['p'][:20], opb['op'], opb['p'][:20], point], None)
+                    for bkt, d in fails[:2]:
+                        col.fail(bkt, case, d)
     col.extra['single_preemption_complete'] = int(complete)
     col.extra['pairs'] = len(pairs) if k == 0 else 0
 
@@ -282,8 +333,11 @@ def gen_mixed(ch, pool):
                 ops.append({'op': 'compile', 'p': p, 'purge': ch.p(0.7)})
             elif r == 5:
                 ops.append({'op': 'purge'})
-            elif r == 6:
+            elif r == 6 and ch.p(0.5):
                 ops.append({'op': 'match-detached', 'p': ch.pick(DETACHED_SELECTORS)})
+            elif r == 6:
+                ops.append({'op': 'select-limits', 'p': ch.pick(LIMIT_SELECTORS)} if ch.p(0.5) else
+                           {'op': 'compile', 'p': HUGE_NTH, 'purge': ch.p(0.5)})
             else:
                 ops.append({'op': ch.pick(('select', 'match', 'filter', 'closest')), 'p': p,
                             'doc': ch.pick(('shared', 'private')), 'target': ch.i(-1, 30)})
